@@ -636,6 +636,61 @@ Proof.
   rewrite Eg. cbn [bind]. rewrite Er. reflexivity.
 Qed.
 
+(* the exact shape of prove_batch's result *)
+Theorem prove_batch_shape : forall indexes,
+  indexes <> [] -> zlen indexes <= 255 -> NoDup indexes -> (forall i, In i indexes -> 0 <= i < N) ->
+  exists imap LF NF, map_indexes indexes (Z.of_nat d) = Ok imap /\ imap_ok indexes imap /\
+    length LF = length indexes /\
+    (forall j i, nth_error indexes j = Some i -> nth_error LF j = Some (leaf i)) /\
+    pb_levels (pred d) (mt_nodes t) (map (fun e => (e + N) / 2) (normalize_indexes indexes))
+              (map (miss imap) (normalize_indexes indexes)) = Ok NF /\
+    mt_prove_batch t indexes = Ok {| bp_leaves := LF; bp_nodes := NF; bp_depth := Z.of_nat d |}.
+Proof.
+  intros indexes Hne Hlen ND Hr. pose proof Npos. pose proof Neven as HNe. pose proof Nsmall.
+  pose proof (wf_d _ _ _ _ _ WF) as Hd1.
+  destruct (map_indexes_complete indexes (Z.of_nat d)) as (imap & Emi & IM & Lmi); [lia|assumption|intros x Hx; apply Hr; assumption|].
+  set (norm := normalize_indexes indexes).
+  assert (Hnorm : forall e, In e norm -> 0 <= e /\ e mod 2 = 0 /\ e + 1 < N /\ In e norm /\
+                            (bt_get e imap <> None \/ bt_get (e + 1) imap <> None)).
+  { intros e He. pose proof He as He'. apply normalize_In in He. destruct He as (i & Hi & ->).
+    pose proof (Hr i Hi) as Hir. pose proof (Z.div_mod i 2 ltac:(lia)). pose proof (Z.div_mod N 2 ltac:(lia)).
+    assert ((i - i mod 2) mod 2 = 0).
+    { replace (i - i mod 2) with (0 + (i / 2) * 2) by lia. rewrite Z.mod_add by lia. reflexivity. }
+    destruct (imap_ok_In _ _ i IM ND Hi) as (j & Ej).
+    destruct (mod2_cases i) as [Ei|Ei]; rewrite Ei in *.
+    - repeat split; try lia; try assumption. left. replace (i - 0) with i by lia. congruence.
+    - repeat split; try lia; try assumption. right. replace (i - 1 + 1) with i by lia. congruence. }
+  unfold Merkle.mt_prove_batch. rewrite match_nonempty by assumption.
+  unfold max_paths. destruct (Z.ltb_spec 255 (zlen indexes)); [lia|].
+  rewrite mt_depth_ok. cbn [bind]. rewrite Emi. cbn [bind]. fold norm.
+  rewrite leaves_len.
+  destruct (pb_first_ok indexes imap IM norm (repeat d0 (length imap))) as (LF & Epf & LLF & PLF).
+  { rewrite repeat_length. assumption. }
+  { intros e He. destruct (Hnorm e He) as (? & ? & ? & _). auto. }
+  fold N. rewrite Epf. cbn [bind].
+  set (nodes0 := map (miss imap) norm) in *. set (next := map (fun e => (e + N) / 2) norm) in *.
+  set (d' := pred d). assert (Hdd : Z.of_nat d = Z.of_nat d' + 1) by (unfold d'; lia).
+  replace (Z.to_nat (Z.of_nat d - 1)) with d' by lia.
+  assert (HN2 : N = 2 * 2 ^ Z.of_nat d').
+  { unfold N. rewrite Hdd, Z.pow_add_r by lia. change (2 ^ 1) with 2. lia. }
+  assert (0 < 2 ^ Z.of_nat d') by (apply pow2_pos; lia).
+  assert (Hnext : forall a, In a next -> 2 ^ Z.of_nat d' <= a < 2 ^ (Z.of_nat d' + 1)).
+  { intros a Ha. unfold next in Ha. apply in_map_iff in Ha. destruct Ha as (e & <- & He).
+    destruct (Hnorm e He) as (He0 & Hev & HeN & _). rewrite Z.pow_add_r by lia. change (2 ^ 1) with 2.
+    pose proof (Z.div_mod (e + N) 2 ltac:(lia)). pose proof (Z.mod_pos_bound (e + N) 2 ltac:(lia)). lia. }
+  assert (HNl : 2 ^ (Z.of_nat d' + 1) <= N).
+  { rewrite Z.pow_add_r by lia. change (2 ^ 1) with 2. lia. }
+  destruct (pb_levels_ok d' next nodes0 Hnext HNl) as (NFin & Epl).
+  { unfold next, nodes0, zlen. rewrite !map_length. lia. }
+  change (pb_levels d' (mt_nodes t) next nodes0 = Ok NFin) in Epl.
+  exists imap, LF, NFin. split; [reflexivity|]. split; [assumption|]. split; [lia|]. split.
+  { intros j i Hj. rewrite <- (Nat2Z.id j) at 1. apply (PLF i (Z.of_nat j)).
+    - apply IM. split; [lia|]. rewrite Nat2Z.id. assumption.
+    - left. apply normalize_In. exists i. split; [apply nth_error_In in Hj; assumption|reflexivity]. }
+  split; [exact Epl|].
+  rewrite Epl. cbn [bind]. rewrite Z.mod_small by lia. reflexivity.
+Qed.
+
 End Batch.
 
 Section BatchTop.
